@@ -311,7 +311,7 @@ theorem read_step {s s' : State} {id budget : Nat} {r : ReadRes}
                 have ok1 : RecvOk s.streamReceiveWindow
                     { rs with assembler := rs.assembler.consume (Nat.min budget rs.assembler.available) } :=
                   ⟨hrsok.end_le, by simp only [hbr]; have := hrsok.sent_le; omega,
-                   by simp only [hbr]; omega, hbuf⟩
+                   by simp only [hbr]; omega, hbuf, hrsok.fin_le⟩
                 have f3 := rvw_freeIf hfree
                 have f4 := rvw_queueMaxStreamId hq
                 obtain ⟨hc5, hrv5⟩ := finalizeReadable_rv hfin
@@ -396,7 +396,8 @@ theorem stop_step {s s' : State} {id code : Nat} {b : Bool}
       obtain ⟨hns, hcr, hrs'⟩ := hst'
       have ok' : RecvOk s.streamReceiveWindow rs' := by
         rw [hrs']
-        exact ⟨hrsok.end_le, hrsok.sent_le, hrsok.read_le, by intro a b hab; simp [Asm.clear] at hab⟩
+        exact ⟨hrsok.end_le, hrsok.sent_le, hrsok.read_le, by intro a b hab; simp [Asm.clear] at hab,
+          hrsok.fin_le⟩
       split at h
       · contradiction
       · rename_i s4 hfree
@@ -554,19 +555,36 @@ theorem receivedReset_step {s s' : State} {id code fo : Nat} {r : Except TErr Bo
         -- the reset took effect
         have hfacts : rs.isReceiving = true ∧ fo ≤ rs.sentMaxStreamData ∧
             s1.dataRecvd + (fo - rs.end_) ≤ s1.localMaxData ∧
-            rs' = { rs with state := .resetRecvd fo code, assembler := rs.assembler.clear } := by
-          rcases reset_cases hres with ⟨_, _, _, he⟩ | ⟨_, _, he⟩ | ⟨_, _, he⟩ | ⟨_, h3, h4, hh⟩
+            rs' = { rs with state := .resetRecvd fo code, assembler := rs.assembler.clear } ∧
+            rs.end_ ≤ fo := by
+          rcases reset_cases hres with ⟨_, _, _, he⟩ | ⟨_, _, he⟩ | ⟨_, _, he⟩ | ⟨hse, h3, h4, hh⟩
           · contradiction
           · contradiction
           · contradiction
           · rcases hh with ⟨sz, c, hst, he⟩ | ⟨sz, hst, he⟩
             · simp at he
             · simp only [Except.ok.injEq, Prod.mk.injEq, true_and] at he
-              exact ⟨by simp [Recv.isReceiving, hst], h3, h4, he⟩
-        obtain ⟨hrecv, hfo, hcred, hrs'⟩ := hfacts
+              refine ⟨by simp [Recv.isReceiving, hst], h3, h4, he, ?_⟩
+              unfold Recv.resetSizeErr at hse
+              cases hfo' : rs.finalOffset with
+              | none =>
+                simp only [hfo'] at hse
+                split at hse
+                · contradiction
+                · omega
+              | some f =>
+                simp only [hfo'] at hse
+                split at hse
+                · contradiction
+                · rename_i hne
+                  have : f = fo := Decidable.byContradiction hne
+                  have := hrsok.fin_le f hfo'
+                  omega
+        obtain ⟨hrecv, hfo, hcred, hrs', hendfo⟩ := hfacts
         have ok' : RecvOk s.streamReceiveWindow rs' := by
           rw [hrs']
-          exact ⟨hrsok.end_le, hrsok.sent_le, hrsok.read_le, by intro a b hab; simp [Asm.clear] at hab⟩
+          exact ⟨hrsok.end_le, hrsok.sent_le, hrsok.read_le, by intro a b hab; simp [Asm.clear] at hab,
+            by intro f hf; simp only [Recv.finalOffset, Option.some.injEq] at hf; subst hf; exact hendfo⟩
         have hbr : rs'.assembler.bytesRead = rs.assembler.bytesRead := by rw [hrs']; rfl
         have hend : rs'.end_ = rs.end_ := by rw [hrs']
         dsimp only at h
@@ -692,7 +710,8 @@ theorem ctrlMsd_inv : ∀ (l : List Nat) {s s' : State} {acc fs : List CtrlFrame
           have ok' : RecvOk s.streamReceiveWindow (rs.recordSentMaxStreamData mx) := by
             unfold Recv.recordSentMaxStreamData
             split
-            · exact ⟨by simp only; have := hok.end_le; omega, by simp only; omega, hok.read_le, hok.buf_le⟩
+            · exact ⟨by simp only; have := hok.end_le; omega, by simp only; omega, hok.read_le, hok.buf_le,
+                hok.fin_le⟩
             · exact hok
           have i2 : RInv (s.putRecv id (rs.recordSentMaxStreamData mx)) := by
             refine i.step rfl i.lmd_u64 i.recvd_le ?_
